@@ -465,8 +465,13 @@ def guarded(fn, *a, _timeout=2.0, **k):
         # the code under test hangs again and again (each hang is already a reported mismatch):
         # stop spending the watchdog interval on every further call in this process
         return 'raise:Timeout'
+    # Two timers: CPU time of this process (a spinning loop is caught after `_timeout` seconds of its own work, however
+    # heavily the machine is loaded - wall-clock alone would raise false alarms on a busy box) and, as a fall-back for a
+    # call that blocks without using the CPU, wall-clock time with a generous factor.
     old = signal.signal(signal.SIGALRM, _alarm)
-    signal.setitimer(signal.ITIMER_REAL, _timeout)
+    oldp = signal.signal(signal.SIGPROF, _alarm)
+    signal.setitimer(signal.ITIMER_PROF, _timeout)
+    signal.setitimer(signal.ITIMER_REAL, max(30.0, 10 * _timeout))
     try:
         return fn(*a, **k)
     except CallTimeout:
@@ -475,8 +480,10 @@ def guarded(fn, *a, _timeout=2.0, **k):
     except Exception as e:
         return 'raise:' + type(e).__name__
     finally:
+        signal.setitimer(signal.ITIMER_PROF, 0)
         signal.setitimer(signal.ITIMER_REAL, 0)
         signal.signal(signal.SIGALRM, old)
+        signal.signal(signal.SIGPROF, oldp)
 
 
 def apalache(ctx, module, obligations, what, cinit=None):
